@@ -76,3 +76,100 @@ def o4_6_witness_ok(w, out):
     if out.get('_rc') != 0: return False
     exp = _table_iter_ref(w['replay']); got = out.get('cursor', '').split(',')[:len(exp)]
     return got == exp
+
+
+def o15_11_level_iter_damaged(mir, tier):
+    """A level of 2..3 files with one entry each; TableCache::find_table fails for one of them every time (a table whose footer /
+    index cannot be read).  Three absolute positioning calls in a row: first | last | seek(T1), then seek(T2), then seek(T2)
+    again (free targets).  Reference: a call fails iff the entry it has to land on lives in the damaged table; a call that
+    returns Ok leaves the cursor exactly on the reference entry (or invalid past the end) - never on an entry of another table
+    because the damaged one was skipped."""
+    ops = {n: mir.method('FilesEntryIterator', n, 'RainDbIterator') for n in ('seek', 'seek_to_first', 'seek_to_last', 'is_valid', 'current')}
+    shapes = [(2, 0), (2, 1), (3, 1)] if tier == 'quick' else [(2, 0), (2, 1), (3, 0), (3, 1), (3, 2)]
+    res = Result('O15.11 FilesEntryIterator with an unreadable table', [f.path for f in ops.values()] + ['set_table_iter, skip_empty_table_files_forward/backward, find_file_with_upper_bound_range (inlined)'],
+                 '(files, damaged file) in %s, one entry per file; call sequences (first | last | seek T1), seek T2, seek T2 with free targets; table cursors = RainDbIterator contract' % (shapes,))
+    t0 = time.time()
+    numf = mir.field('FileMetadata', 'file_number')
+    for F, bad in shapes:
+        for first_op in ('first', 'last', 'seek'):
+            w = World(mir)
+            ents = [(w.key('e%d' % i), BitVec('v%d' % i, 8)) for i in range(F)]
+            files = [mir.mk_struct('FileMetadata', allowed_seeks=Enum('None'), file_number=bv(10 + i), file_size=BitVec('size%d' % i, 64), smallest_key=Enum('Some', (ents[i][0],)), largest_key=Enum('Some', (ents[i][0],))) for i in range(F)]
+            KE = [w.K(e[0]) for e in ents]
+            t1, t2 = w.key('t1'), w.key('t2'); T1, T2 = w.K(t1), w.K(t2)
+            pre = list(w.pre) + [klt(KE[i], KE[i + 1]) for i in range(F - 1)]
+            S = base_summaries(mir); P = S['$patterns']
+            S.update(absiter.summaries(['<TwoLevelIterator as RainDbIterator>::'], w.K))
+            def find(se, env, pc, tc, num, bad=bad):
+                n = simplify(num).as_long() - 10
+                st = dict(env['$state']); st['opens'] = st['opens'] + [n]
+                if n == bad: return [(None, Enum('Err', (Enum('TableRead', ({'str': 'damaged footer'},), 'RainDBError'),)), st)]
+                return [(None, Enum('Ok', ({'table_of': n},)), st)]
+            P[r'TableCache::find_table'] = find
+            P[r'(?:table::)?Table::iter_with'] = lambda se, env, pc, t, ro, ents=ents: lib.one(env, absiter.make([ents[t['table_of']]]))
+            P[r'FileMetadata::file_number'] = lambda se, env, pc, f: lib.one(env, (se.deref(env, f) if isinstance(f, Ref) else f)[numf])
+            P[r'<ReadOptions as Clone>::clone'] = lib.ident
+            P[r'<Arc<TableCache> as Deref>::deref'] = lib.ident
+            P[r'<RainDBError as From<.*>>::from'] = lambda se, env, pc, e: lib.one(env, e if isinstance(e, Enum) and e.ty == 'RainDBError' else Enum('TableRead', (e,), 'RainDBError'))
+            ex = Exec(mir, S, loop_bound=F + 6)
+            it = mir.mk_struct('FilesEntryIterator', file_list=list(files), current_file_index=bv(0), current_table_iter=Enum('None'), table_cache={'abstract': True, '__ty': 'TableCache'}, read_options={'abstract': True, '__ty': 'ReadOptions'})
+            env0 = {'$state': {'opens': []}, '$t1': t1, '$t2': t2, '$it': it}
+            steps = [(first_op, T1, '$t1'), ('seek2', T2, '$t2'), ('seek2', T2, '$t2')]
+            def landing(op, T):
+                # [(condition, index of the entry the call lands on or None)]
+                if op == 'first': return [(BoolVal(True), 0)]
+                if op == 'last': return [(BoolVal(True), F - 1)]
+                return [(And(*[klt(KE[j], T) for j in range(sp)], *([Not(klt(KE[sp], T))] if sp < F else [])), sp if sp < F else None) for sp in range(F + 1)]
+            def drive(i, env, pc, trace, ex=ex, steps=steps, bad=bad, F=F, first_op=first_op):
+                if i == len(steps):
+                    ex.paths += 1; return
+                op, T, tref = steps[i]
+                fn = ops['seek_to_first'] if op == 'first' else ops['seek_to_last'] if op == 'last' else ops['seek']
+                def after(ret, e2, p2):
+                    failed = isinstance(ret, Enum) and ret.tag == 'Err'
+                    def got_valid(v, e3, p3):
+                        def got_cur(cur, e4, p4):
+                            obs = None
+                            if isinstance(cur, Enum) and cur.tag == 'Some':
+                                kv = cur.fields[0]; obs = (w.K(ex.deref(e4, kv[0])), ex.deref(e4, kv[1]))
+                            for cond, li in landing(op, T):
+                                def chk(cond=cond, li=li):
+                                    pcx = p4 + [cond]
+                                    if li == bad: ok = BoolVal(failed)
+                                    elif failed: ok = BoolVal(False)
+                                    elif li is None: ok = Not(v) if not isinstance(v, bool) else BoolVal(not v)
+                                    elif obs is None: ok = BoolVal(False)
+                                    else: ok = And(v, keq(obs[0], KE[li]), obs[1] == ents[li][1])
+                                    label = 'a positioning call on a level with an unreadable table reports success although the entry it has to land on lives in that table (the table is skipped silently) or fails / lands elsewhere although it does not'
+                                    for lab, post, m in ex.check_posts([(label, ok)], pcx):
+                                        opsn = [first_op if first_op != 'seek' else 'seek', 'seek2', 'seek2'][:i + 1]
+                                        res.violations.append({'label': lab, 'files': F, 'damaged': bad, 'step': i, 'replay': ['level_iter_damaged', ','.join(opsn), str(bad), '%s:%d' % (key_bytes(mval(m, T1[0])), mval(m, T1[1])), '%s:%d' % (key_bytes(mval(m, T2[0])), mval(m, T2[1])), ','.join(['1'] * F)] +
+                                                               ['%s:%d:%d:%02x' % (key_bytes(mval(m, ke[0])), mval(m, ke[1]), mval(m, ke[2]), mval(m, ents[j][1])) for j, ke in enumerate(KE)]})
+                                    res.cases['%d files, damaged %d, %s, step %d' % (F, bad, first_op, i)] = 1
+                                    drive(i + 1, e4, pcx, trace + [li])
+                                ex.under(cond, chk)
+                        ex.run_fn(ops['current'], [Ref('$it')], e3, p3, got_cur)
+                    ex.run_fn(ops['is_valid'], [Ref('$it')], e2, p2, got_valid)
+                args = [Ref('$it')] + ([Ref(tref)] if op not in ('first', 'last') else [])
+                ex.run_fn(fn, args, env, pc, after)
+            ex.solver.push(); ex.solver.add(*pre)
+            try: drive(0, env0, list(pre), [])
+            finally: ex.solver.pop()
+            res.absorb(ex)
+            for pcx, msg, where in ex.panics:
+                res.panic_paths += 1; res.violations.append({'label': 'panic path: ' + msg[:80], 'replay': None, 'confirmed_by': {'reproduced': False, 'detail': 'no native scenario'}})
+    # one report per label is enough
+    seen, out = set(), []
+    for v in res.violations:
+        key = (v['label'], v.get('files'), v.get('damaged'))
+        if key not in seen: seen.add(key); out.append(v)
+    res.violations = out
+    res.wall_s = time.time() - t0
+    if res.violations: res.status = 'violation'
+    return res
+
+
+def o15_11_confirm(v, out):
+    """Native: real table files, the footer of the damaged one altered, the real FilesEntryIterator driven through the calls."""
+    if out.get('_rc') != 0: return (True, 'native level iterator panicked: %s' % out.get('_stderr', '')[-200:])
+    return (out.get('steps') != out.get('expected') and out.get('steps') != 'build-failed', 'native steps %s, expected %s' % (out.get('steps'), out.get('expected')))
